@@ -32,7 +32,7 @@ def _want(qual, node):
 
 _TR = transform.Asyncify(_want, local_rule=True)
 M = loader.load('aiuti/asyncio.py', 'aiuti_asyncio_modeT_buffer', extra_passes=[_TR],
-                rebind={'Lock': stubs.VLock, 'ThreadPoolExecutor': simloop.VExecutor, 'sleep': simloop.vsleep},
+                rebind={**stubs.MODE_T_REBIND, 'ThreadPoolExecutor': simloop.VExecutor, 'sleep': simloop.vsleep},
                 class_bases={'DaemonTask': '_vf_SimTask'}, inject={'_vt': vt, '_vf_SimTask': simloop.SimTask})
 try:
     M.DaemonTask.__del__ = lambda self: None
